@@ -57,6 +57,9 @@ pub fn run_program(rt: &Runtime<NoCtx>, prog: &Program, src: &str, inputs: &[Vec
     }
     let mut stats = RunStats::default();
     let mut out = Vec::new();
+    // tracked values created while the package is compiled (script constants) stay in the
+    // ledger as the baseline of every call
+    host::ledger_reset();
     let compiled = catch(|| exec::compile(src, rt));
     let mut pkg = match compiled {
         Err(p) => {
@@ -90,7 +93,7 @@ pub fn run_program(rt: &Runtime<NoCtx>, prog: &Program, src: &str, inputs: &[Vec
         let mut attempt = 0;
         loop {
             host::set_input(input);
-            host::ledger_reset();
+            host::ledger_mark();
             host::log_clear();
             alloc::begin();
             let got = f.call();
@@ -215,6 +218,7 @@ impl Diff {
         };
         // a third of the entry points are filtermaps (accept / reject with payloads)
         cfg.filtermap_main = true;
+        cfg.trk_consts = true;
         if !args.flag("no-avoid") {
             // zero-sized tracked values are never cloned/dropped by compiled code
             // (known finding C03/zst-elided); the witnesses keep exercising it
